@@ -192,6 +192,7 @@ class Cfg:
         self.time_obs = False     # code logs `time`; states carry time-aware invariants
         self.anon = False         # code also sends events without any distinguishing parameter (equal by value)
         self.echo = False         # some guards use the event-free form and their text doubles as entry/exit code of a state
+        self.payload = False      # some sent events carry the context's list w itself as a parameter
         self.neg_delays = False   # sends also use negative delays
         self.nested_names = False  # names from NESTED_POOL (drawn by swarm in one run out of six)
         self.sentconds = False    # a third of the contract conditions also log sent('na'), sent('ea'), received('ea')
@@ -381,7 +382,7 @@ def decorate(sp, st, cfg, events):
         out = []
         if cfg.sends and st.flag(1, 3):
             for _ in range(st.int(1, 2)):
-                out.append(('send', st.pick(events + ['ez']), st.pick(delays)))
+                out.append(('sendw' if cfg.payload and st.flag(1, 2) else 'send', st.pick(events + ['ez']), st.pick(delays)))
         if cfg.notify and st.flag(1, 5):
             out.insert(st.choice(len(out) + 1), ('notify', st.pick(['na', 'nb']), None))
         if cfg.anon and st.flag(1, 3):
@@ -450,6 +451,8 @@ def _sends_code(sends):
     for kind, name, delay in sends:
         if kind == 'send':
             out.append('P.send(send, %r, %r)' % (name, delay))
+        elif kind == 'sendw':
+            out.append('P.sendw(send, %r, %r, w)' % (name, delay))
         elif kind == 'anon':
             out.append('P.anon(send, %r, %r)' % (name, delay))
         else:
